@@ -21,6 +21,9 @@ def recv (name : String) (round : Nat) (tagged : Bool) (binds : List Leaf) : Pre
 def aggr (name : String) (tagged : Bool) (binds : List Leaf) : Pred :=
   { name := name, evalRound := 0, who := .aggregator, tagged := tagged, binds := binds }
 
+/-- a per-row family: one predicate per MSP row owned by the sender (see `Pred.perRow`) -/
+def Pred.rows (p : Pred) : Pred := { p with perRow := true }
+
 /-- session setup (pkg/mpc/session): the commitment key `Ck` is the sender's free choice -/
 def session : Graph :=
   { proto := "session"
@@ -38,10 +41,11 @@ def gennaro : Graph :=
                b 2 "verificationVector", b 2 "proof"]
     preds := [
       recv "okamoto-pok-of-opening" 2 true [b 1 "verificationVector", b 1 "proof"],
-      recv "pedersen-share-vs-vector" 2 true [b 1 "verificationVector", u 1 "share.secret", u 1 "share.blinding", u 1 "share.sharingID"],
+      (recv "pedersen-share-vs-vector" 2 true [b 1 "verificationVector", u 1 "share.secret", u 1 "share.blinding", u 1 "share.sharingID"]).rows,
       recv "batch-schnorr-pok" 3 true [b 2 "verificationVector", b 2 "proof"],
-      recv "feldman-share-vs-vector" 3 true [b 2 "verificationVector", u 1 "share.secret"]]
-    gate := "mpc.NewBaseShard: lift(share) = (M·V) rows of the holder" }
+      (recv "feldman-share-vs-vector" 3 true [b 2 "verificationVector", u 1 "share.secret"]).rows]
+    gate := "mpc.NewBaseShard: lift(share) = (M·V) rows of the holder"
+    vectors := [u 1 "share.secret", u 1 "share.blinding"] }
 
 /-- Canetti DKG (pkg/mpc/dkg/canetti) -/
 def canetti : Graph :=
@@ -50,19 +54,21 @@ def canetti : Graph :=
                u 2 "Share.id", u 2 "Share.value", b 3 "Psi.A", b 3 "Psi.E", b 3 "Psi.Z"]
     preds := [
       recv "commitment-opens" 3 true [b 1 "V", b 2 "Message.SessionID", b 2 "Message.SharingID", b 2 "Message.Rho", b 2 "Message.X", b 2 "Message.A", b 2 "U"],
-      recv "share-vs-vector" 3 true [b 2 "Message.X", u 2 "Share.value", u 2 "Share.id"],
+      (recv "share-vs-vector" 3 true [b 2 "Message.X", u 2 "Share.value", u 2 "Share.id"]).rows,
       recv "proof-commitment-is-the-committed-one" 4 true [b 3 "Psi.A", b 2 "Message.A"],
       recv "batch-schnorr-proof" 4 true [b 3 "Psi.Z", b 3 "Psi.E", b 2 "Message.X", b 2 "Message.Rho"]]
-    gate := "mpc.NewBaseShard: lift(share) = (M·V) rows of the holder" }
+    gate := "mpc.NewBaseShard: lift(share) = (M·V) rows of the holder"
+    vectors := [u 2 "Share.value"] }
 
 /-- HJKY zero sharing (pkg/mpc/zero/hjky) -/
 def hjky : Graph :=
   { proto := "hjky"
     leaves := [b 1 "verificationVector", u 1 "zeroShare.id", u 1 "zeroShare.value"]
     preds := [
-      recv "zero-share-vs-vector" 2 true [b 1 "verificationVector", u 1 "zeroShare.value", u 1 "zeroShare.id"],
+      (recv "zero-share-vs-vector" 2 true [b 1 "verificationVector", u 1 "zeroShare.value", u 1 "zeroShare.id"]).rows,
       recv "vector-commits-to-zero" 2 true [b 1 "verificationVector"]]
-    gate := "share of zero verified against the summed vector" }
+    gate := "share of zero verified against the summed vector"
+    vectors := [u 1 "zeroShare.value"] }
 
 /-- redistribution / refresh / recovery (pkg/mpc/redistribute), sender a previous shareholder -/
 def redistribute : Graph :=
@@ -72,12 +78,13 @@ def redistribute : Graph :=
                u 2 "NextShareContribution.id", u 2 "NextShareContribution.value"]
     preds := [
       recv "hjky-round2" 2 true [b 1 "ZeroR1", u 1 "ZeroR1"],
-      recv "next-share-vs-contribution-vector" 3 true [b 2 "NextVerificationVectorContribution", u 2 "NextShareContribution.value", u 2 "NextShareContribution.id"],
+      (recv "next-share-vs-contribution-vector" 3 true [b 2 "NextVerificationVectorContribution", u 2 "NextShareContribution.value", u 2 "NextShareContribution.id"]).rows,
       recv "agrees-with-own-previous-view" 3 true [b 2 "PrevMSP", b 2 "PrevVerificationVector", b 2 "ZeroVerificationVector"],
       recv "per-sender-partial-public-key" 3 true [b 2 "NextVerificationVectorContribution"],
       recv "oldPk-equals-newPk" 3 false [b 2 "PrevVerificationVector", b 2 "NextVerificationVectorContribution"],
       recv "aggregated-share-vs-aggregated-vector" 3 false [b 2 "NextVerificationVectorContribution", u 2 "NextShareContribution.value"]]
-    gate := "mpc.NewBaseShard after oldPk = newPk and the aggregated share check" }
+    gate := "mpc.NewBaseShard after oldPk = newPk and the aggregated share check"
+    vectors := [u 2 "NextShareContribution.value"] }
 
 /-- a newcomer deals nothing: its placeholder broadcasts are not read by anybody -/
 def redistributeNewcomer : Graph :=
@@ -131,14 +138,19 @@ def dkls23Bbot : Graph :=
       aggr "nonce-points-agree-and-signature-verifies" false [b 4 "r", b 4 "u", b 4 "w"]]
     gate := "dkls23.Aggregate verifies the signature" }
 
-/-- Boldyreva threshold BLS: the partial signatures are the only messages -/
+/-- Boldyreva threshold BLS: the partial signatures are the only messages. A partial signature has one
+component per MSP row of its sender; the aggregator verifies EACH component against the public key
+share of its own row (`for i, pki := range partialPublicKey`) and recombines the components with the
+reconstruction coefficients WITHOUT a final verification: the per-row family is the only gate
+(`Props/C04.lean`: `detect_boldyreva_component`, `summed_check_misses_paired_shift`). -/
 def boldyreva : Graph :=
   { proto := "boldyreva"
     leaves := [b 1 "sigma_i", b 1 "sigma_pop_i"]
     preds := [
-      aggr "partial-signature-verifies-under-the-senders-key-share" true [b 1 "sigma_i"],
-      aggr "pop-part-matches-the-rogue-key-mode" true [b 1 "sigma_pop_i"]]
-    gate := "Aggregator.Aggregate verifies every partial signature" }
+      (aggr "partial-signature-verifies-under-the-senders-key-share" true [b 1 "sigma_i"]).rows,
+      (aggr "pop-part-matches-the-rogue-key-mode" true [b 1 "sigma_pop_i"]).rows]
+    gate := "Aggregator.Aggregate verifies every component of every partial signature against its row key"
+    vectors := [b 1 "sigma_i", b 1 "sigma_pop_i"] }
 
 def allGraphs : List Graph :=
   [session, gennaro, canetti, hjky, redistribute, redistributeNewcomer, lindell22, dkls23Softspoken, dkls23Bbot, boldyreva]
